@@ -182,6 +182,8 @@ def run(ctx):
     # Rock Ridge always on, all three versions
     for ver, n in (('1.09', 60), ('1.10', 40), ('1.12', 60)):
         c01.run(ctx, focus='C08', post=post, n_quick=n, n_thorough=n * 25, force={'rr': ver})
+    # parsed continuation areas keep being allocated soundly when the reopened image is edited
+    c01.run(ctx, focus='C08', post=post, n_quick=60, n_thorough=1500, force={'rr': '1.09'}, reopen_every=5, directed=True)
 
 
 def replay(ctx, obj):
